@@ -262,7 +262,42 @@ sys.exit(1 if bad else 0)
 '''
 
 
+MIXED_OPSETS = '''
+import sys, os, tempfile, importlib.util
+src = """
+from onnxscript import script, FLOAT
+from onnxscript import opset12, opset18
+from onnxscript.values import Opset
+local = Opset("local.fn", 1)
+
+@script(local, default_opset=opset18)
+def twice(x):
+    return opset18.Add(x, x)
+
+@script(default_opset=opset12)
+def main_fn(X: FLOAT[2]) -> FLOAT[2]:
+    return twice(opset12.Relu(X))
+"""
+d = tempfile.mkdtemp(); path = os.path.join(d, "mo_case.py"); open(path, "w").write(src)
+spec = importlib.util.spec_from_file_location("mo_case", path); mod = importlib.util.module_from_spec(spec); sys.modules["mo_case"] = mod; spec.loader.exec_module(mod)
+import onnx
+m = mod.main_fn.to_model_proto()
+vers = {o.domain: o.version for o in m.opset_import}
+fvers = {f.name: {o.domain: o.version for o in f.opset_import} for f in m.functions}
+try:
+    onnx.checker.check_model(m)
+except Exception as e:
+    print(f"accepted script (main graph written against opset 12, called function against opset 18): model imports {vers}, function imports {fvers}; onnx.checker: {str(e).splitlines()[0][:200]}")
+    sys.exit(1)
+sys.exit(0)
+'''
+
+
 def replay(ob):
+    if "functions_use_the_default_domain_at_the_version" in ob["name"]:
+        return MIXED_OPSETS
+    if "to_model_proto.default_domain_version" in ob["name"] or "main_graph_imports_keep_their_versions" in ob["name"]:
+        return "import runpy, sys\nsys.argv = ['c01_opsets']\nrunpy.run_path('/verif/replay_lib/c01_opsets.py', run_name='__main__')\n"
     if "scope.domains_used_inside_a_block" in ob["name"]:
         return SCOPE_DOMAIN
     if "return.no_graph_input_returned_directly" in ob["name"] or "return.outputs_produced_in_this_graph" in ob["name"]:
